@@ -358,10 +358,10 @@ BITCHAN = ["bit channel: RangeEncoder::encode_bit/encode_direct_bits and RangeDe
 U(id="C01.sym.len", props=["C01"], file="enc/encoder.rs", harnesses=["c01_sym_len_ps0", "c01_sym_len_ps15"], thorough_harnesses=["c01_sym_len_ps5"], contract_stubs=BITCHAN,
   functions=[("src/enc/encoder.rs", "encode", "LengthEncoder"), ("src/decoder.rs", "decode", "LengthCoder"), ("src/enc/range_enc.rs", "encode_bit_tree"), ("src/range_dec.rs", "decode_bit_tree")],
   contract="forall len in 2..=273 (pos_state 0, 15; 5 in thorough): decode(encode(len)) = len, same probability slots in the same order, channel drained")
-U(id="C01.sym.rep", props=["C01"], file="enc/encoder.rs", harnesses=["c01_sym_rep_ps0"], thorough_harnesses=["c01_sym_rep_ps9"], contract_stubs=BITCHAN,
+U(id="C01.sym.rep", props=["C01"], file="enc/encoder.rs", harnesses=["c01_sym_rep_ps0", "c01_sym_rep_ps9"], tier="thorough", timeout=1800, contract_stubs=BITCHAN,
   functions=[("src/enc/encoder.rs", "encode_rep_match"), ("src/decoder.rs", "decode_rep_match")],
   contract="forall rep<4, len (1 only with rep 0), state, rep history: decoder returns len; both sides end with the same rotated history (rep[0] = chosen distance) and state; same slots in the same order")
-U(id="C01.sym.match", props=["C01"], file="enc/encoder.rs", harnesses=["c01_sym_match_small", "c01_sym_match_mid"], thorough_harnesses=["c01_sym_match_large"], contract_stubs=BITCHAN,
+U(id="C01.sym.match", props=["C01"], file="enc/encoder.rs", harnesses=["c01_sym_match_small", "c01_sym_match_mid", "c01_sym_match_large"], tier="thorough", timeout=1800, contract_stubs=BITCHAN,
   functions=[("src/enc/encoder.rs", "encode_match"), ("src/decoder.rs", "decode_match"), ("src/enc/range_enc.rs", "encode_reverse_bit_tree"), ("src/range_dec.rs", "decode_reverse_bit_tree")],
   contract="forall dist (classes <4, 4..127, >=128 incl. the end marker), len, state, history: decoder returns len and rep[0] = dist, history shifted, same state, same slots, channel drained")
 U(id="C03.xz.finish_block", props=["C03", "C02", "C18"], file="xz/writer.rs", features=NOSTD,
@@ -369,6 +369,14 @@ U(id="C03.xz.finish_block", props=["C03", "C02", "C18"], file="xz/writer.rs", fe
   contract_stubs=["payload chain (accepts all bytes, emits 1..4 bytes on finish) installed as the block's writer"],
   functions=[("src/xz/writer.rs", "finish_current_block"), ("src/xz/writer.rs", "add_padding"), ("src/xz/writer.rs", "write_block_checksum"), ("src/xz/writer.rs", "take_checksum"), ("src/xz/writer.rs", "get_checksum_size")],
   contract="forall bookkeeping states: chain finished, zero padding to 4, Check field, exactly one index record with unpadded = header+compressed+check and uncompressed = this block's byte count; per-block counter restarts, stream counter untouched")
+U(id="C01.sym.lit", props=["C01", "C19"], file="enc/encoder.rs", harnesses=["c01_sym_lit_after_literal", "c01_sym_lit_after_match", "c01_sym_lit_subcoder_index"],
+  thorough_harnesses=["c01_sym_lit_after_rep", "c01_sym_lit_after_literal5"], contract_stubs=BITCHAN,
+  functions=[("src/enc/encoder.rs", "encode", "LiteralSubEncoder"), ("src/decoder.rs", "decode", "LiteralSubDecoder"), ("src/lib.rs", "get_sub_coder_index")],
+  contract="forall byte, match byte, rep0, state (literal / after-match modes): decoder appends the encoded byte, same slots in the same order, same next state; sub-coder index < 2^(lc+lp)")
+U(id="C13.gate", props=["C13", "C01", "C17"], file="lz/lz_encoder.rs", harnesses=["c13_lz_encoder_new"], stubs=[],
+  kind="bounded", bound="dictionary 4096 (sizes are linear in dict), extra sizes <= 4096, every nice_len, both match finders",
+  functions=[("src/lz/lz_encoder.rs", "new", "LZEncoder"), ("src/lz/lz_encoder.rs", "new_hc4"), ("src/lz/lz_encoder.rs", "new_bt4")],
+  contract="keep_size_before = extra_before + dict, keep_size_after = extra_after + match_len_max (look-ahead gate that makes decisions independent of write partition), buffer = spec size, empty window, match arrays nice_len-1")
 
 # ---------------------------------------------------------------------------------------- quick-tier budget
 # Harnesses kept in the quick tier per unit; every other harness of the unit runs in the thorough tier only.
